@@ -97,9 +97,9 @@ func (c *loopClient) LoopBack(e *Engine, st *State, loop ast.Stmt) {
 	n, _ := strconv.Atoi(v)
 	key := fmt.Sprintf("%s loop #%d", c.fn, ord)
 	okProg := v != "" && v != "?" && n >= 1
-	e.Site("C12/loop", key, loop, okProg, "W-consume: every path around the loop reads at least one token/rune that it does not give back (and the read is known to have succeeded)")
+	e.Site("C12/loop", key, loop, okProg, "W-consume/W-descend: every path around the loop reads at least one token/rune that it does not give back (the read is known to have succeeded), or replaces a tree node by one of its own children")
 	if !okProg {
-		e.Site("C12/loop", key, loop, false, "a path leads back to the loop head without a net successful read from the cursor: at end of input (or on a token it gives back) the loop never terminates")
+		e.Site("C12/loop", key, loop, false, "a path leads back to the loop head without a net successful read from the cursor and without descending into a child node: at end of input (or on a token it gives back) the loop never terminates")
 	}
 }
 
@@ -243,8 +243,13 @@ func (c *loopClient) PostCall(e *Engine, st *State, call *ast.CallExpr, callee *
 }
 
 // entryRelative: x is `start` or `start + k` where start := <cursor>.pos is the first statement of the function.
-func (c *loopClient) entryRelative(e *Engine, x ast.Expr) (int, bool) {
-	info := e.Info
+func (c *loopClient) entryRelative(e *Engine, x ast.Expr, infos ...*types.Info) (int, bool) {
+	var info *types.Info
+	if len(infos) > 0 {
+		info = infos[0]
+	} else {
+		info = e.Info
+	}
 	k := 0
 	x = ast.Unparen(x)
 	if b, ok := x.(*ast.BinaryExpr); ok && b.Op == token.ADD {
@@ -267,6 +272,26 @@ func (c *loopClient) entryRelative(e *Engine, x ast.Expr) (int, bool) {
 		return 0, false
 	}
 	return k, true
+}
+
+// PreAssign: `x = <field path of x's own current value>` (x a syntax-tree node) is progress by descent.
+func (c *loopClient) PreAssign(e *Engine, st *State, lhs, rhs []ast.Expr, _ ast.Stmt) *State {
+	if len(lhs) != 1 || len(rhs) != 1 {
+		return nil
+	}
+	o := objOf(e.Info, lhs[0])
+	if o == nil || !types.Implements(o.Type(), c.w.p.Iface(c.w.p.Parser, "Node")) {
+		return nil
+	}
+	xk := e.objKey(o)
+	rk := e.CanonSt(st, rhs[0])
+	if !rk.OK {
+		return nil
+	}
+	if strings.HasPrefix(rk.Key, xk+".") || strings.HasPrefix(rk.Key, "assert("+xk+",") && strings.Contains(rk.Key, ").") {
+		return c.bump(st, 1)
+	}
+	return nil
 }
 
 func (c *loopClient) PostAssign(e *Engine, st *State, lhs, rhs []ast.Expr, _ ast.Stmt) *State {
